@@ -269,6 +269,31 @@ def check_case(case, opts):
                     raise Violation("%s exited 0 but %r was not unpacked" % (what, c["name"]), r.err.decode(errors="replace")[-400:], sig="missing-entry")
                 if stat.S_IFMT(s.st_mode) != tmap[c["type"]]:
                     raise Violation("%s: %r unpacked with the wrong type" % (what, c["name"]), None, sig="wrong-type")
+            # below the top level too: every entry that has a legal, unique name (and is not filtered) is there with the right type,
+            # and regular files have their contents - an illegal sibling must not take the rest of the directory with it
+            def verify(dnode, fsdir, rel):
+                nm = [cname(c["name"]) for c in dnode.get("children") or []]
+                for c in dnode.get("children") or []:
+                    if not sane(c["name"]) or nm.count(cname(c["name"])) > 1 or c["type"] in filtered:
+                        continue
+                    pth = os.path.join(fsdir, cname(c["name"]))
+                    try:
+                        st_ = os.lstat(pth)
+                    except OSError:
+                        if c["type"] == "dir" and "-E" in case["flags"]:
+                            continue
+                        raise Violation("%s exited 0 but %r was not unpacked" % (what, rel + cname(c["name"])), r.err.decode(errors="replace")[-400:], sig="missing-entry")
+                    if stat.S_IFMT(st_.st_mode) != tmap[c["type"]]:
+                        raise Violation("%s: %r unpacked with the wrong type" % (what, rel + cname(c["name"])), None, sig="wrong-type")
+                    if c["type"] == "file":
+                        with open(pth, "rb") as fh:
+                            got = fh.read()
+                        if got != c.get("data", b""):
+                            raise Violation("%s exited 0 but %r has %d of %d bytes / other contents" % (what, rel + cname(c["name"]), len(got), len(c.get("data", b""))),
+                                            r.err.decode(errors="replace")[-300:], sig="content-missing")
+                    elif c["type"] == "dir":
+                        verify(c, pth, rel + cname(c["name"]) + b"/")
+            verify(root, os.fsencode(R), b"")
             if hostile and not r.err.strip() and "-q" not in case["flags"]:
                 insane_top = [c["name"] for c in root["children"] if not sane(c["name"]) and c["name"] not in (b"",) and c["type"] not in filtered
                               and not (c["type"] == "dir" and "-E" in case["flags"])]
